@@ -1204,8 +1204,10 @@ def stream_cli_simple(seed, tier, workdir, stream):
         if i % 10 == 9:
             # an instructor listed twice is still one instructor (fix F10)
             cs = [c for c in doc["courses"] if c["instructors"]]
+            # (preferably somebody with own choices: the instructor bonus is theirs, once)
+            cs2 = [c for c in cs if doc["participants"][c["instructors"][0]]["choices"]]
             if cs:
-                c = r.choice(cs)
+                c = r.choice(cs2 or cs)
                 free = [p for p in range(len(doc["participants"])) if not any(p in co["instructors"] for co in doc["courses"])]
                 if free and i % 20 == 9:
                     # … also when another instructor stands between the two entries ([a, b, a])
